@@ -431,6 +431,17 @@ class C08(Check):
                 got = [c.shape[0] for c in cores] + [cores[-1].shape[-1]]
                 if any(g > r for g, r in zip(got, rank)):
                     return viol("rank-exceeds-requested", f"returned ranks {got}, requested {rank}")
+            if entry in ("tensor_train", "TensorTrain-class", "tensor_train_matrix") and isinstance(rank, list) and len(cores) > 1 and rank[0] == 1 and rank[-1] == 1:
+                # the returned TT ranks are the requested ones clipped by the SIZES of the unfoldings only - never by the data
+                sizes = list(shape) if entry != "tensor_train_matrix" else [shape[k] * shape[k + n // 2] for k in range(n // 2)]
+                exp, r_prev = [1], 1
+                for k in range(len(sizes) - 1):
+                    r_prev = min(r_prev * sizes[k], int(np.prod(sizes[k + 1:])), rank[k + 1])
+                    exp.append(r_prev)
+                exp.append(1)
+                got = [c.shape[0] for c in cores] + [cores[-1].shape[-1]]
+                if got != exp:
+                    return viol("ranks-differ-from-requested-clipped-by-sizes", f"returned TT ranks {got}, requested {rank} clipped by the unfolding sizes gives {exp}")
             if entry in ("tensor_train", "TensorTrain-class", "tensor_train_matrix"):
                 for k, c in enumerate(cores[:-1]):
                     M = c.reshape(-1, c.shape[-1])
